@@ -144,6 +144,11 @@ class LockStep:
         d.update(kw)
         from . import findings
         tag = findings.diagnose_hist(self, mechanism, _raw or {})
+        if not tag and getattr(self, 'damaged_db_finding', None):
+            # the stored database of this history is already damaged in the
+            # way a recorded finding describes (set by the check that owns
+            # the history): what follows is its consequence
+            tag = self.damaged_db_finding
         self.last_tag = tag
         if tag:
             d['finding'] = tag
@@ -389,10 +394,15 @@ class LockStep:
                                          present=self.m.sorted_keys()))
                 return False
             self.walk = w
-            if self.check_sizes and self.sizes and w is not None and (
-                    w.max_leaf_fill > self.sizes[0] or
-                    w.max_int_fill > self.sizes[1] or
-                    w.root_size >= 2 * self.sizes[1]):
+            # (sizes=None: whatever the class says at the moment)
+            lim = self.sizes or (
+                getattr(type(self.c), 'max_leaf_size', None),
+                getattr(type(self.c), 'max_internal_size', None))
+            if self.check_sizes and w is not None and (
+                    not lim[0] or not lim[1] or
+                    w.max_leaf_fill > lim[0] or
+                    w.max_int_fill > lim[1] or
+                    w.root_size >= 2 * lim[1]):
                 rec.ev(self.impl + ':load-refused:over-full-node')
                 self.check_sizes = False
         try:
@@ -410,6 +420,25 @@ class LockStep:
                 eq(got, self.m.contents()):
             rec.ev(self.impl + ':load-refused:completed')
             return True
+        if op in MUTATING_OPS and mo[0] == 'ok' and self.impl == 'py' and \
+                self.fam.vc == 'F':
+            # (F08, judged where results are judged: the pure-Python float
+            # families keep doubles; here only "completed or not" matters)
+            from .families import f32
+
+            def rnd(x):
+                if isinstance(x, float):
+                    try:
+                        return f32(x)
+                    except OverflowError:
+                        return float('inf') if x > 0 else float('-inf')
+                if isinstance(x, (list, tuple)):
+                    return [rnd(y) for y in x]
+                return x
+            if eq(rnd(got), rnd(self.m.contents())):
+                rec.ev(self.impl + ':load-refused:completed')
+                self._set_model(got)
+                return True
         self.violation('partial-change-after-refused-load', op=op,
                        args=brief(args), observed=brief(got, 300),
                        before=brief(self._pre_contents, 300))
